@@ -407,6 +407,16 @@ func c08RealFetcher(run *evid.Run, cfg Cfg) {
 		ts = append(ts, target{"Slashy/" + a, rig.DetKey("ndw-Slashy", i)})
 	}
 	ts = append(ts, target{"val/1", rig.DetKey("ndw-val", 0)}, target{"val/1/2", rig.DetKey("ndw-val", 1)})
+	// Accounts created at run time through Dirk, the same account name in two wallets: each is its own account.
+	for _, nm := range []string{"Slashy/dyn", "val/dyn", "val/plain"} {
+		pub, _, err := st.Process.OnGenerate(bg, rig.Client1(), nm, []byte("pass"), 1, 1)
+		if err != nil {
+			run.Inconclusive("real-fetcher slice: creating " + nm + ": " + err.Error())
+			return
+		}
+		ts = append(ts, target{nm, &rig.Key{Pub: pub}})
+		run.Count("real_fetcher_accounts_created_at_run_time", 1)
+	}
 	verify := func(what string, t target, root [32]byte, res core.Result, sig []byte) {
 		run.Eval(1)
 		run.Count("real_fetcher_requests", 1)
